@@ -18,6 +18,10 @@ def check(report, tier, only=None):
         if only and not any(s in n for s in only):
             continue
         f(report, PROP)
+    # a caller who asked for identity X is only ever answered by a dial pinned to X (an answer borrowed from another dial attributes the wrong party)
+    if not only or any(s in 'connect_request' for s in only):
+        from props import C03
+        C03.ob_connect_request(report)
     for n, f in (('one_request', rpcpath.ob_do_handle), ('one_stream', rpcpath.ob_do_rpc)):
         if only and not any(s in n for s in only):
             continue
